@@ -349,6 +349,9 @@ type CaseObs struct {
 	ID     int       `json:"id"`
 	Engine string    `json:"engine"`
 	Err    string    `json:"err,omitempty"`
+	// AfterClose: instances still open, or still answering calls without an exit error, after the final
+	// Runtime.CloseWithExitCode (empty = the runtime closed every instance, whatever failed before)
+	AfterClose string `json:"after_close,omitempty"`
 	Steps  []StepObs `json:"steps"`
 }
 
@@ -394,6 +397,25 @@ func runCase(c *Case, engine string) CaseObs {
 			twin.inject(snap)
 		}
 	}
+	// "all other instances keep behaving afterwards exactly as an instance that had not failed": that includes
+	// being closed by the runtime.  Close the runtime with a code and look at every instance.
+	real.rt.CloseWithExitCode(real.ctx, 9)
+	var open []string
+	for k, m := range real.mods {
+		if m == nil {
+			continue
+		}
+		if !m.IsClosed() {
+			open = append(open, fmt.Sprintf("instance %d is not closed", k))
+			continue
+		}
+		if f := m.ExportedFunction("f0"); f != nil {
+			if _, err := f.Call(real.ctx, 0); err == nil {
+				open = append(open, fmt.Sprintf("instance %d still runs f0 without an error", k))
+			}
+		}
+	}
+	obs.AfterClose = strings.Join(open, "; ")
 	if grew {
 		real.fns = [3][]api.Function{}
 		runtime.GC()
